@@ -9,7 +9,7 @@ import collections
 import itertools
 
 from gv import core, families, gen, monitors
-from gv.oracle import recon, val
+from gv.oracle import recon, val, fold_number_twins as fold
 
 ID = "C01"
 LEVEL = "exploration"
@@ -118,10 +118,11 @@ def check(case, ctx):
     try:
         e = monitors.full(ta.edits(tb))
         A, B = recon(e)
-        if A != va:
-            diags.append({"kind": "script-does-not-reproduce-first", "edit": type(e).__name__, **_first_diff(A, va)})
-        if B != vb:
-            diags.append({"kind": "script-does-not-reproduce-second", "edit": type(e).__name__, **_first_diff(B, vb)})
+        # (mset() orders by repr, so fold before comparing multisets would re-order: compare folded forms built the same way)
+        if _fold(A) != _fold(va):
+            diags.append({"kind": "script-does-not-reproduce-first", "edit": type(e).__name__, **_first_diff(_fold(A), _fold(va))})
+        if _fold(B) != _fold(vb):
+            diags.append({"kind": "script-does-not-reproduce-second", "edit": type(e).__name__, **_first_diff(_fold(B), _fold(vb))})
         kinds = collections.Counter(type(x).__name__ for x in monitors.walk_script(e))
         nontrivial = any(k != "Match" for k in kinds)
         if ctx is not None:
@@ -137,8 +138,8 @@ def check(case, ctx):
     # ---- M2: annotations on the diff tree ------------------------------------------------------
     try:
         d = ta.diff(tb)
-        if val(d) != va:
-            diags.append({"kind": "edited-copy-differs-from-first", **_first_diff(val(d), va)})
+        if _fold(val(d)) != _fold(va):
+            diags.append({"kind": "edited-copy-differs-from-first", **_first_diff(_fold(val(d)), _fold(va))})
         # the root's edit_list holds every edit assigned to it (for the plist wrapper: the collection *and* the
         # zero-cost Match it lists for itself, which is what .edit ends up pointing at)
         script, seen_ids = None, set()
@@ -192,6 +193,24 @@ def check(case, ctx):
         ctx.count(f"options:{case.get('ds')}/{case.get('le')}")
         ctx.seen(case, nontrivial)
     return diags
+
+
+def _fold(v):
+    """Fold int/float twins, then re-canonicalise the multiset containers (their item order depends on the items)."""
+    v = fold(v)
+    return _resort(v)
+
+
+def _resort(v):
+    if isinstance(v, tuple):
+        if len(v) == 2 and v[0] in ("D", "M") and isinstance(v[1], tuple):
+            import collections
+            c = collections.Counter()
+            for item, n in v[1]:
+                c[_resort(item)] += n
+            return (v[0], tuple(sorted(c.items(), key=repr)))
+        return tuple(_resort(x) for x in v)
+    return v
 
 
 def _first_diff(got, want):
